@@ -607,7 +607,7 @@ class Gen:
                 outs.append(fx["id"])
             else:
                 outs.append(o)
-        prog = prune({"nodes": nodes, "outs": outs})
+        prog = sink(prune({"nodes": nodes, "outs": outs}))
         if self.clean:
             pin_bodies(prog)
             align_unknown_rank(prog)
@@ -676,6 +676,64 @@ def prune(prog):
         return kept
 
     return {"nodes": prune_nodes(prog["nodes"], set(prog["outs"])), "outs": list(prog["outs"])}
+
+
+def _refs(blk, sid) -> bool:
+    if blk["out"] == sid:
+        return True
+    for st in blk["nodes"]:
+        if sid in st.get("args", []):
+            return True
+        if st["op"] == "if" and (_refs(st["then"], sid) or _refs(st["else"], sid)):
+            return True
+    return False
+
+
+def sink(prog):
+    """Normal form in which the syntactic position of a statement is the graph spox places its nodes
+    in: a value used only inside one body is built inside that body (innermost enclosing scope, C04)."""
+    import copy
+
+    prog = copy.deepcopy(prog)
+
+    def process(nodes, keep):
+        i = len(nodes) - 1
+        while i >= 0:
+            st = nodes[i]
+            sid = st["id"]
+            if sid not in keep and st["op"] != "func":
+                later = nodes[i + 1:]
+                direct = any(sid in s.get("args", []) for s in later)
+                using = [s[k] for s in later if s["op"] == "if" for k in ("then", "else") if _refs(s[k], sid)]
+                if not direct and len(using) == 1:
+                    using[0]["nodes"].insert(0, st)
+                    del nodes[i]
+            i -= 1
+        for st in nodes:
+            if st["op"] == "if":
+                for k in ("then", "else"):
+                    process(st[k]["nodes"], {st[k]["out"]})
+            elif st["op"] == "func":
+                process(st["body"]["nodes"], {st["body"]["out"]})
+
+    process(prog["nodes"], set(prog["outs"]))
+    return prog
+
+
+def uniform(prog, mv=None):
+    """The same program with every default-domain constructor taken from one opset module."""
+    import copy
+
+    prog = copy.deepcopy(prog)
+    vs = [st.get("mv") for st, *_ in walk(prog["nodes"]) if st["op"] not in ML_MACROS and "mv" in st]
+    vs += [st.get("dv") for st, *_ in walk(prog["nodes"]) if st["op"] in ML_MACROS]
+    mv = mv or max([v for v in vs if v] + [17])
+    for st, *_ in walk(prog["nodes"]):
+        if st["op"] in ML_MACROS:
+            st["dv"] = mv
+        elif "mv" in st:
+            st["mv"] = mv
+    return prog
 
 
 def prog_size(prog):
